@@ -205,7 +205,7 @@ pub fn lane_random_from(tier: Tier, seed: u64, start: usize, n: usize, tag: &str
                         let ppath = format!("{}pre{}.md", dir, k);
                         let pd = {
                             let np = 1 + g.below(2) as usize;
-                            let mut p = random_doc(&mut g, &mut sim, &ppath, Format::Md, false, np, true);
+                            let mut p = random_doc(&mut g, &mut sim, &ppath, Format::Md, false, np, !unlimited);
                             p.main = false;
                             p
                         };
@@ -534,6 +534,94 @@ fn outcome_plans() -> Vec<(&'static str, Vec<Plan>, Vec<Fault>)> {
     ]
 }
 
+/// C15: the skip code comes from a prepended / appended document's test case, or from a
+/// detached test case (whose exit code scrut never sees: no skip)
+pub fn lane_skip_interplay(seed: u64) -> Vec<Scenario> {
+    let mut out = vec![];
+    let mut g = G::new(seed ^ 0x15c1);
+    for which in ["prepend-skips", "append-skips", "detached-80", "skip-after-failure", "skip-with-wait", "fail-then-die", "compat-md"] {
+        for pos in 0..2usize {
+            let mut sim = base_sim(g.rng.next_u64());
+            let skip = Plan::new(Fate::Code { code: 80, expected: None, exit_shell: pos == 0 });
+            let pass = Plan::new(Fate::Pass);
+            let mut cli = Cli::default();
+            let mut docs = vec![];
+            let mk = |g: &mut G, sim: &mut SimScenario, path: &str, plans: &[Plan]| {
+                let tests = plans.iter().map(|p| g.test(p, &mut sim.programs)).collect();
+                doc(path, Format::Md, tests)
+            };
+            match which {
+                "prepend-skips" | "append-skips" => {
+                    let plans = if pos == 0 { vec![skip.clone(), pass.clone()] } else { vec![pass.clone(), skip.clone()] };
+                    let mut shared = mk(&mut g, &mut sim, "k/shared.md", &plans);
+                    shared.main = false;
+                    let mut main = mk(&mut g, &mut sim, "k/main.md", &[pass.clone(), Plan::new(Fate::WrongOutput)]);
+                    if which == "prepend-skips" {
+                        main.prepend.push("shared.md".into());
+                    } else {
+                        main.append.push("shared.md".into());
+                    }
+                    docs.push(shared);
+                    docs.push(main);
+                }
+                "detached-80" => {
+                    let mut det = Plan::new(Fate::Detached);
+                    det.title_tag = "det".into();
+                    let mut d = mk(&mut g, &mut sim, "k/det.md", &[pass.clone(), det, pass.clone()]);
+                    // the detached command ends with 80 - nobody is looking
+                    let n = d.tests[1].nonce.clone();
+                    sim.programs.insert(n, vec![Op::Sleep { ns: 10 * MS }, Op::Status { code: 80 }]);
+                    if pos == 1 {
+                        d.tests.swap(0, 1);
+                    }
+                    docs.push(d);
+                }
+                "skip-after-failure" => {
+                    let plans = vec![Plan::new(Fate::WrongOutput), Plan::new(Fate::Code { code: 3, expected: None, exit_shell: false }), skip.clone(), pass.clone()];
+                    docs.push(mk(&mut g, &mut sim, "k/late.md", &plans));
+                    docs.push(mk(&mut g, &mut sim, "k/other.md", &[pass.clone()]));
+                }
+                "skip-with-wait" => {
+                    let mut s2 = skip.clone();
+                    s2.cfg.wait = Some(Wait { timeout_ns: 300 * MS, path: None });
+                    s2.cfg.timeout_ns = Some(5 * SEC);
+                    docs.push(mk(&mut g, &mut sim, "k/wait.md", &[pass.clone(), s2, pass.clone()]));
+                }
+                "fail-then-die" => {
+                    // no skip code anywhere: nothing may be reported as skipped
+                    let die = Plan::new(Fate::Die { sig: if pos == 0 { 9 } else { 15 }, after_lines: 1, no_expectations: false });
+                    docs.push(mk(&mut g, &mut sim, "k/die.md", &[Plan::new(Fate::WrongOutput), die, pass.clone(), pass.clone()]));
+                }
+                _ => {
+                    cli.cram_compat = true;
+                    let plans = if pos == 0 { vec![skip.clone(), pass.clone(), pass.clone()] } else { vec![pass.clone(), pass.clone(), skip.clone()] };
+                    let mut sk = plans;
+                    for p in sk.iter_mut() {
+                        if let Fate::Code { exit_shell, .. } = &mut p.fate {
+                            *exit_shell = false;
+                        }
+                    }
+                    docs.push(mk(&mut g, &mut sim, "k/compat.md", &sk));
+                    docs.push(mk(&mut g, &mut sim, "k/compat2.md", &[pass.clone(), Plan::new(Fate::WrongOutput)]));
+                }
+            }
+            let mut sc = Scenario {
+                lane: format!("skip-interplay/{}/pos{}", which, pos),
+                tier: Tier::Cli,
+                script_mode: false,
+                docs,
+                cli,
+                sim,
+                pretty: false,
+                check: all_checks(),
+            };
+            fill_expectations(&mut sc, &mut g);
+            out.push(sc);
+        }
+    }
+    out
+}
+
 /// C18: outcome class x directory mode x format x document layout (+ a modelled peer)
 pub fn lane_env(seed: u64) -> Vec<Scenario> {
     let mut out = vec![];
@@ -541,7 +629,7 @@ pub fn lane_env(seed: u64) -> Vec<Scenario> {
     for (oname, plans, faults) in outcome_plans() {
         for dirmode in ["tmp", "work", "keep"] {
             for fmt in ["md", "cram", "md-compat"] {
-                for layout in ["one", "two-same-name", "prepend", "doc-timeout"] {
+                for layout in ["one", "two-same-name", "three-same-name", "prepend", "doc-timeout"] {
                     let script = fmt != "md";
                     if script && plans.iter().any(|p| p.cfg != TestCfg::default() || p.fate == Fate::Detached) {
                         continue;
@@ -562,6 +650,12 @@ pub fn lane_env(seed: u64) -> Vec<Scenario> {
                         "two-same-name" => {
                             docs.push(mk_doc(&mut g, &mut sim, &format!("x/case.{}", ext), &plans));
                             docs.push(mk_doc(&mut g, &mut sim, &format!("y/case.{}", ext), &[Plan::new(Fate::Pass), Plan::new(Fate::Pass)]));
+                        }
+                        "three-same-name" => {
+                            docs.push(mk_doc(&mut g, &mut sim, &format!("x/case.{}", ext), &[Plan::new(Fate::Pass)]));
+                            docs.push(mk_doc(&mut g, &mut sim, &format!("y/case.{}", ext), &plans));
+                            docs.push(mk_doc(&mut g, &mut sim, &format!("z/case.{}", ext), &[Plan::new(Fate::Pass), Plan::new(Fate::Pass)]));
+                            docs.push(mk_doc(&mut g, &mut sim, &format!("z/case.{}-1.{}", ext, ext), &[Plan::new(Fate::Pass)]));
                         }
                         "prepend" => {
                             let mut main = mk_doc(&mut g, &mut sim, "p/main.md", &plans);
@@ -739,6 +833,72 @@ pub fn lane_runs(seed: u64) -> Vec<Scenario> {
             };
             fill_expectations(&mut sc, &mut g);
             out.push(sc);
+        }
+    }
+    out
+}
+
+/// C20: scrut cannot do its job in ONE of several documents - the run must exit 1
+pub fn lane_hard_failures(seed: u64) -> Vec<Scenario> {
+    let mut out = vec![];
+    let mut g = G::new(seed ^ 0x4a2d);
+    for which in ["later-unparsable", "later-bad-frontmatter", "later-missing-shell", "first-missing-shell", "dangling-prepend", "dangling-append", "missing-path-last"] {
+        for before in ["pass", "fail", "skip", "timeout"] {
+            for cram_first in [false, true] {
+                let mut sim = base_sim(g.rng.next_u64());
+                let plan = match before {
+                    "pass" => Plan::new(Fate::Pass),
+                    "fail" => Plan::new(Fate::WrongOutput),
+                    "skip" => Plan::new(Fate::Code { code: 80, expected: None, exit_shell: false }),
+                    _ => {
+                        if cram_first {
+                            continue;
+                        }
+                        Plan::new(Fate::Hang).cfg(TestCfg { timeout_ns: Some(SEC), ..Default::default() })
+                    }
+                };
+                let t1 = vec![g.test(&Plan::new(Fate::Pass), &mut sim.programs), g.test(&plan, &mut sim.programs)];
+                let first = if cram_first { doc("h/first.t", Format::Cram, t1) } else { doc("h/first.md", Format::Md, t1) };
+                let t2 = vec![g.test(&Plan::new(Fate::Pass), &mut sim.programs)];
+                let mut second = doc("h/second.md", Format::Md, t2);
+                let mut cli = Cli::default();
+                let mut docs = vec![];
+                let mut first = first;
+                match which {
+                    "later-unparsable" => {
+                        second.tests.clear();
+                        second.raw = Some("# broken\n\n```scrut\nonly an expectation, no command\n```\n".into());
+                    }
+                    "later-bad-frontmatter" => {
+                        second.tests.clear();
+                        second.raw = Some("---\ntotal_timeout: [not, a, duration\n---\n\n# t\n\n```scrut\n$ true\n```\n".into());
+                    }
+                    "later-missing-shell" => second.shell = Some("/nonexistent/dir/bash".into()),
+                    "first-missing-shell" => {
+                        if cram_first {
+                            continue;
+                        }
+                        first.shell = Some("/nonexistent/dir/bash".into())
+                    }
+                    "dangling-prepend" => second.prepend.push("not-there.md".into()),
+                    "dangling-append" => second.append.push("not-there.md".into()),
+                    _ => cli.missing_paths.push("h/zz-nowhere.md".into()),
+                }
+                docs.push(first);
+                docs.push(second);
+                let mut sc = Scenario {
+                    lane: format!("hard/{}/{}/{}", which, before, if cram_first { "cram" } else { "md" }),
+                    tier: Tier::Cli,
+                    script_mode: false,
+                    docs,
+                    cli,
+                    sim,
+                    pretty: false,
+                    check: vec!["C20".into(), "C18".into()],
+                };
+                fill_expectations(&mut sc, &mut g);
+                out.push(sc);
+            }
         }
     }
     out
